@@ -37,4 +37,22 @@ MonthAbbrEn == <<"Jan", "Feb", "Mar", "Apr", "May", "Jun", "Jul", "Aug", "Sep", 
 WeekdayEn == <<"monday", "tuesday", "wednesday", "thursday", "friday", "saturday", "sunday">>
 OrdSuffix(d) == IF d \in {11, 12, 13} THEN "th" ELSE IF d % 10 = 1 THEN "st" ELSE IF d % 10 = 2 THEN "nd" ELSE IF d % 10 = 3 THEN "rd" ELSE "th"
 DayOrd(d) == ToString(d) \o OrdSuffix(d)
+
+(* month and weekday names of the other cultures (written here, not read from the code) *)
+MonthName(cul) ==
+  CASE cul = "fr-fr" -> <<"janvier", "f{e9}vrier", "mars", "avril", "mai", "juin", "juillet", "ao{fb}t", "septembre", "octobre", "novembre", "d{e9}cembre">>
+    [] cul \in {"es-es", "es-mx"} -> <<"enero", "febrero", "marzo", "abril", "mayo", "junio", "julio", "agosto", "septiembre", "octubre", "noviembre", "diciembre">>
+    [] cul = "pt-br" -> <<"janeiro", "fevereiro", "mar{e7}o", "abril", "maio", "junho", "julho", "agosto", "setembro", "outubro", "novembro", "dezembro">>
+    [] cul = "de-de" -> <<"Januar", "Februar", "M{e4}rz", "April", "Mai", "Juni", "Juli", "August", "September", "Oktober", "November", "Dezember">>
+    [] cul = "it-it" -> <<"gennaio", "febbraio", "marzo", "aprile", "maggio", "giugno", "luglio", "agosto", "settembre", "ottobre", "novembre", "dicembre">>
+    [] cul = "nl-nl" -> <<"januari", "februari", "maart", "april", "mei", "juni", "juli", "augustus", "september", "oktober", "november", "december">>
+WeekdayName(cul) ==
+  CASE cul = "fr-fr" -> <<"lundi", "mardi", "mercredi", "jeudi", "vendredi", "samedi", "dimanche">>
+    [] cul \in {"es-es", "es-mx"} -> <<"lunes", "martes", "mi{e9}rcoles", "jueves", "viernes", "s{e1}bado", "domingo">>
+    [] cul = "pt-br" -> <<"segunda-feira", "ter{e7}a-feira", "quarta-feira", "quinta-feira", "sexta-feira", "s{e1}bado", "domingo">>
+    [] cul = "de-de" -> <<"Montag", "Dienstag", "Mittwoch", "Donnerstag", "Freitag", "Samstag", "Sonntag">>
+    [] cul = "it-it" -> <<"luned{ec}", "marted{ec}", "mercoled{ec}", "gioved{ec}", "venerd{ec}", "sabato", "domenica">>
+    [] cul = "nl-nl" -> <<"maandag", "dinsdag", "woensdag", "donderdag", "vrijdag", "zaterdag", "zondag">>
+    [] cul = "zh-cn" -> <<"{5468}{4e00}", "{5468}{4e8c}", "{5468}{4e09}", "{5468}{56db}", "{5468}{4e94}", "{5468}{516d}", "{5468}{65e5}">>
+    [] OTHER -> WeekdayEn
 =============================================================================
